@@ -584,11 +584,13 @@ class Scheme(Base):
         return out
 
     # ------------------------------------------------------------------ the engine
-    def mutate(self, cname, full_names=(), sample=0.05, swaps=True):
-        """run every mutation of every component of the current honest instance"""
+    def mutate(self, cname, full_names=(), sample=0.05, swaps=True, only=None):
+        """run every mutation of every component (or of those selected by `only`) of the current honest instance"""
         ctx, R, rng = self.ctx, self.R, self.rng
         comps = self.comps()
         for c in comps:
+            if only is not None and not only(c):
+                continue
             full = c.name in full_names
             saved = self.snap(c)
             lst = self.muts(c, full)
@@ -1057,7 +1059,8 @@ def run_ec(ctx):
             heavy = isinstance(sch, Ers)
             t0 = time.time()
             if sch.msg_kind == "bytes":
-                for L in (range(ci % 7, 301, 7) if heavy else range(0, 301)):
+                stride = 7 if heavy else (5 if sch.name.startswith("sokor-") else 1)
+                for L in range(ci % stride, 301, stride):
                     if sch.mine():
                         sch.honest(nm, sch.rbytes(L), eq_rate=0.1)
             else:
@@ -1073,7 +1076,12 @@ def run_ec(ctx):
                 scal = [c.name for c in sch.comps() if c.kind in ("bn", "bytes")]
                 full = set(scal if not heavy else scal[:4])
             t0 = time.time()
-            sch.mutate(nm, full_names=full, sample=0.02 if heavy else 0.05)
+            only = None
+            if heavy and sch.size > 1 and q:
+                last = "[%d]" % (sch.size - 1)
+                only = lambda c: "[" not in c.name or c.name.endswith(last)
+                full = set(["td"]) if full else ()
+            sch.mutate(nm, full_names=full, sample=0.02 if heavy else 0.05, only=only)
             ctx.add("seconds_mutation:" + sch.name, round(time.time() - t0, 1))
             sch.finish()
     ctx.note("functions_exercised", sorted(k for k in R.fn_seen if k.startswith("cp_")))
